@@ -38,7 +38,11 @@ Record rep (P : Z -> Prop) (st : bool) (n0 : nat) (done : list d4token) (b : bst
   rp_first : forall x, nth_error (bs_idx b) 0 = Some x -> x = 0;
   rp_empty : bs_idx b = [] -> ls_g (bs_ls b) = sg_empty;
   (* a node that is not declared is a literal leaf or an expansion And *)
-  rp_class : forall y t, sg_label (ls_g (bs_ls b)) y = Some t -> In y (bs_idx b) \/ is_litk t \/ t = GAnd
+  rp_class : forall y t, sg_label (ls_g (bs_ls b)) y = Some t -> In y (bs_idx b) \/ is_litk t \/ t = GAnd;
+  (* an and node that is not declared is the expansion of a labelled edge *)
+  rp_exp : forall y, sg_label (ls_g (bs_ls b)) y = Some GAnd -> ~ In y (bs_idx b) ->
+           exists i e tx, In e (d4_edges_from done i) /\ fst e <> [] /\ 1 <= snd e /\
+                          nth_error (bs_idx b) (snd e - 1) = Some tx /\ exp_node (ls_g (bs_ls b)) y (fst e) tx
 }.
 
 (* ---------- small facts ---------- *)
@@ -126,7 +130,7 @@ Lemma rep_decl n0 done b t k : rep P st n0 done b -> d4_kind t = [k] -> d4_token
 Proof.
   intros HR Hk Hmax Hne. unfold decl.
   destruct (add_node rc (tid_of_kind k) (ls_g (bs_ls b))) as [x g'] eqn:Ha.
-  pose proof HR as [[HI Hl Hp Hinj Hsr] Htri Hnd Hdecl Hedges Hrange Htot Hfirst Hempty Hclass].
+  pose proof HR as [[HI Hl Hp Hinj Hsr] Htri Hnd Hdecl Hedges Hrange Htot Hfirst Hempty Hclass Hexp].
   pose proof (add_node_ext rc _ _ _ _ [] HI Ha) as He.
   pose proof (add_node_fresh rc _ _ _ _ HI Ha) as Hfresh.
   pose proof (add_node_label_new rc _ _ _ _ HI Ha) as Hlx.
@@ -174,6 +178,12 @@ Proof.
   - intros y ty Hy. destruct (add_node_label_cases rc _ _ _ _ _ _ Ha Hy) as [[-> _]|[_ H0]].
     + left. apply in_or_app. right. now left.
     + destruct (Hclass y ty H0) as [H1|H1]; [left; apply in_or_app; now left|now right].
+  - intros y Hy Hny. destruct (add_node_label_cases rc _ _ _ _ _ _ Ha Hy) as [[-> _]|[Hyx H0]].
+    + exfalso. apply Hny. apply in_or_app. right. now left.
+    + destruct (Hexp y H0) as [i [e [tx [He1 [He2 [He3 [He4 He5]]]]]]]; [intros Hin; apply Hny; apply in_or_app; now left|].
+      exists i, e, tx. split; [rewrite d4_edges_from_app; apply in_or_app; now left|]. split; [exact He2|]. split; [exact He3|].
+      split; [rewrite nth_error_app1; [exact He4|apply nth_error_Some; congruence]|].
+      apply (exp_node_ext _ _ [] _ _ _ He); [intros []|exact He5].
 Qed.
 
 (* ---------- the literal leaves of an edge ---------- *)
@@ -313,6 +323,43 @@ Proof.
     rewrite (IH _ _ H y). exact (proj1 (ls_add_edge_S _ _ _ _ E1) y).
 Qed.
 
+Lemma ls_add_edge_mono a b s s' x z : ls_add_edge a b s = Some s' ->
+  In z (sg_out (ls_g s) x) -> In z (sg_out (ls_g s') x).
+Proof.
+  unfold ls_add_edge. destruct (add_edge a b (ls_g s)) as [g'|] eqn:E; [|discriminate].
+  intros H. injection H as <-. cbn [with_g ls_g]. now apply (add_edge_out_mono a b).
+Qed.
+
+Lemma add_edges_to_mono an x z : forall bs s s', add_edges_to an bs s = Some s' ->
+  In z (sg_out (ls_g s) x) -> In z (sg_out (ls_g s') x).
+Proof.
+  induction bs as [|b r IH]; intros s s' H Hz; cbn [add_edges_to] in H; [now injection H as <-|].
+  destruct (ls_add_edge an b s) as [s1|] eqn:E1; [|discriminate].
+  exact (IH _ _ H (ls_add_edge_mono _ _ _ _ _ _ E1 Hz)).
+Qed.
+
+(* a new and node of an edge line is the new child of the source *)
+Lemma resolve_S_and a c fs s1 s2 : resolve_weighted_edge rc a c fs s1 = Some s2 ->
+  forall y, sg_label (ls_g s2) y = Some GAnd -> sg_label (ls_g s1) y = Some GAnd \/ In y (sg_out (ls_g s2) a).
+Proof.
+  intros H y Hy. unfold resolve_weighted_edge in H.
+  destruct (get_lits rc fs s1) as [lns s1'] eqn:El.
+  pose proof (get_lits_S fs s1 lns s1' El) as Hl.
+  destruct lns as [|ln0 lns'].
+  - injection H as <-. destruct (Hl y _ Hy) as [H1|[l H1]]; [now left|discriminate].
+  - destruct (add_node rc GAnd (ls_g s1')) as [an g2] eqn:Ha.
+    destruct (ls_add_edge a an (with_g s1' (remove_edge a c g2))) as [s3|] eqn:E3; [|discriminate].
+    destruct (add_edges_to an (ln0 :: lns') s3) as [s4|] eqn:E4; [|discriminate].
+    pose proof Hy as Hy'.
+    rewrite (proj1 (ls_add_edge_S _ _ _ _ H) y), (add_edges_to_S _ _ _ _ E4 y), (proj1 (ls_add_edge_S _ _ _ _ E3) y) in Hy'.
+    cbn [with_g ls_g] in Hy'. rewrite remove_edge_label in Hy'.
+    destruct (add_node_label_cases rc _ _ _ _ _ _ Ha Hy') as [[-> _]|[_ H0]].
+    + right. apply (ls_add_edge_mono _ _ _ _ _ _ H), (add_edges_to_mono _ _ _ _ _ _ E4).
+      unfold ls_add_edge in E3. destruct (add_edge a an _) as [g3|] eqn:E; [|discriminate]. injection E3 as <-.
+      cbn [with_g ls_g]. rewrite (add_edge_out_same a an _ _ E). now left.
+    + destruct (Hl y _ H0) as [H1|[l H1]]; [now left|discriminate].
+Qed.
+
 Lemma resolve_S a c fs s1 s2 : resolve_weighted_edge rc a c fs s1 = Some s2 ->
   forall y t, sg_label (ls_g s2) y = Some t -> sg_label (ls_g s1) y = Some t \/ is_litk t \/ t = GAnd.
 Proof.
@@ -347,7 +394,7 @@ Proof.
   destruct (ls_add_edge a c (bs_ls b)) as [s1|] eqn:E1; [|discriminate].
   destruct (resolve_weighted_edge rc a c fs s1) as [s2|] eqn:E2; [|discriminate].
   injection H as <-.
-  pose proof HR as [Hc Htri Hnd Hdecl Hedges Hrange Htot Hfirst Hempty Hclass].
+  pose proof HR as [Hc Htri Hnd Hdecl Hedges Hrange Htot Hfirst Hempty Hclass Hexp].
   assert (Hga : st = true -> gate_at (ls_g (bs_ls b)) a).
   { intros Hst. destruct (Hgf Hst) as [k [Hk Hkg]].
     unfold idx_get in Ea. destruct (0 <? from)%Z; [|discriminate].
@@ -377,7 +424,7 @@ Proof.
       rewrite Hfrom, Z.eqb_refl, rev_app_distr. cbn [rev app]. rewrite Hoa.
       constructor; [|eapply Forall2_impl; [exact Htrans|exact (Hedges p a Hi)]].
       exists c. cbn [fst snd]. split; [exact Ht1|]. split; [exact Htc|].
-      destruct Hy as [[-> ->]|[Hfs [Hyd Hexp]]]; [left; now split|]. right. split; [exact Hfs|]. split; [|exact Hexp].
+      destruct Hy as [[-> ->]|[Hfs [Hyd Hexpn]]]; [left; now split|]. right. split; [exact Hfs|]. split; [|exact Hexpn].
       intros Hin. rewrite (idx_alive _ _ _ _ _ _ HR Hin) in Hyd. discriminate.
     + assert (Hne : (from =? Z.of_nat (S i))%Z = false) by (apply Z.eqb_neq; lia).
       rewrite Hne, app_nil_r.
@@ -395,6 +442,23 @@ Proof.
   - intros E. rewrite E in Hfa. destruct (Z.to_nat from - 1); discriminate.
   - intros z tz Hz. destruct (resolve_S _ _ _ _ _ E2 z tz Hz) as [H1|H1]; [|now right].
     rewrite (proj1 (ls_add_edge_S _ _ _ _ E1) z) in H1. now apply Hclass.
+  - intros z Hz Hzn.
+    assert (Hold : sg_label (ls_g (bs_ls b)) z = Some GAnd ->
+                   exists i e tx, In e (d4_edges_from (done ++ [DEdge from to fs]) i) /\ fst e <> [] /\ 1 <= snd e /\
+                                  nth_error (bs_idx b) (snd e - 1) = Some tx /\ exp_node (ls_g s2) z (fst e) tx).
+    { intros H0. destruct (Hexp z H0 Hzn) as [i [e [tx [He1 [He2 [He3 [He4 He5]]]]]]].
+      exists i, e, tx. split; [rewrite d4_edges_from_app; apply in_or_app; now left|]. split; [exact He2|]. split; [exact He3|].
+      split; [exact He4|]. apply (exp_node_ext _ _ [a] _ _ _ He); [|exact He5]. intros [<-|[]]. now apply Hzn. }
+    destruct (resolve_S_and _ _ _ _ _ E2 z Hz) as [H1|H1].
+    + rewrite (proj1 (ls_add_edge_S _ _ _ _ E1) z) in H1. now apply Hold.
+    + rewrite Hoa in H1. destruct H1 as [<-|H1].
+      * destruct Hy as [[_ ->]|[Hfs [_ Hexpy]]]; [exfalso; apply Hzn; now apply nth_error_In in Htc|].
+        exists (S p), (fs, Z.to_nat to), c. split.
+        -- rewrite d4_edges_from_app. apply in_or_app. right. unfold d4_edges_from. cbn [flat_map d4_edge_of].
+           rewrite Hfrom, Z.eqb_refl. now left.
+        -- cbn [fst snd]. split; [exact Hfs|]. split; [exact Ht1|]. split; [exact Htc|exact Hexpy].
+      * apply Hold. rewrite <- (ex_label _ _ _ He z); [exact Hz|].
+        exact (proj2 (out_alive _ _ _ (proj1 (co_inv _ _ _ Hc)) H1)).
 Qed.
 
 (* ---------- the whole file ---------- *)
@@ -439,5 +503,6 @@ Proof.
   - intros x Hx. discriminate.
   - reflexivity.
   - intros y t Hy. unfold sg_label in Hy. cbn in Hy. destruct y; discriminate.
+  - intros y Hy. unfold sg_label in Hy. cbn in Hy. destruct y; discriminate.
 Qed.
 End Parse.
